@@ -470,7 +470,9 @@ def conforms(reg, t, v, path="value"):
     d = reg_get(reg, t[1])
     k = d["kind"]
     if k == "int":
-        if not isinstance(v, int):       # Python: bool is a subclass of int (True == 1)
+        if type(v) is bool:
+            return "Int-is-bool"             # a resolver must receive the integer 1 / 0, not True / False
+        if not isinstance(v, int):
             return "Int-not-int"
         if not (MIN32 <= v <= MAX32):
             return "Int-out-of-range"
